@@ -193,7 +193,7 @@ Proof. intros h m d Hh V. destruct (moslem_date h m d Hh V) as (y & mo & da & dv
 (* gregorian2moslem of every civil date from 16 July 622 to 7 Feb 3048 is the date of the
    arithmetic Islamic calendar with the same day number *)
 Theorem g2m_spec : forall y m d, valid y m d = true -> islamic_epoch <= jdn y m d <= last_day ->
-  exists h mi di, islamic_valid h mi di = true /\ islamic_jdn h mi di = jdn y m d /\
+  exists h mi di, 1 <= h <= 2500 /\ islamic_valid h mi di = true /\ islamic_jdn h mi di = jdn y m d /\
     g2m y m d = tuple3 h mi di.
 Proof.
   intros y m d V [Hlo Hhi].
@@ -211,9 +211,19 @@ Corollary g2m_unique : forall y m d h mi di, valid y m d = true ->
   islamic_epoch <= jdn y m d <= last_day ->
   islamic_valid h mi di = true -> islamic_jdn h mi di = jdn y m d -> g2m y m d = tuple3 h mi di.
 Proof.
-  intros y m d h mi di V B Vi E. destruct (g2m_spec y m d V B) as (h' & mi' & di' & Vi' & E' & G).
+  intros y m d h mi di V B Vi E. destruct (g2m_spec y m d V B) as (h' & mi' & di' & _ & Vi' & E' & G).
   assert ((h', mi', di') = (h, mi, di)) as Heq by (apply islamic_jdn_inj; try assumption; lia).
   inversion Heq. subst. exact G.
+Qed.
+
+(* civil -> Moslem -> civil returns the civil date (the day possibly as an integral float) *)
+Theorem roundtrip_civil : forall y m d, valid y m d = true -> islamic_epoch <= jdn y m d <= last_day ->
+  exists h mi di dv, g2m y m d = tuple3 h mi di /\ m2g h mi di = VTuple [VInt y; VInt m; dv] /\ day_is dv d.
+Proof.
+  intros y m d V B. destruct (g2m_spec y m d V B) as (h & mi & di & Hh & Vi & E & G).
+  destruct (m2g_shape h mi di Hh Vi) as (y' & mo' & da' & dv & Er & Hd & V' & J).
+  assert ((y', mo', da') = (y, m, d)) as Heq by (apply jdn_inj; try assumption; lia).
+  inversion Heq. subst. exists h, mi, di, dv. auto.
 Qed.
 
 Lemma next_year_le h m d h' m' d' : islamic_next h m d = (h', m', d') -> h <= h' <= h + 1.
